@@ -12,4 +12,5 @@ def run(tier, seed, replay):
         "Ledger.tla gives the exact supply delta of every supply-changing event (time-based mint with 75/25 split, 2% tip burn, deposit claim, withdrawal, dispute execution burn, refund dust burn) and a frame condition for everything else; Ledger_MC checks exhaustively (small rate, all gap interleavings) that per-block truncation never exceeds the continuous inflation bound and the split loses nothing; recorded histories of the production app (bank GetSupply and the sum over ALL balances after every operation) are validated by TLC against Ledger_Trace with real magnitudes (big-number backend).",
         ["block time strictly increases by >= 1 ms", "SDK-internal burns (slashing, vetoed gov deposits) are not generated",
          "deposit amounts are decoded by the harness with the Go ABI library (projection); their correctness is C14/C15"],
-        mc=[("Ledger_MC", "Ledger_MC_quick.cfg", "Ledger_MC_thorough.cfg", 8)])
+        mc=[("Ledger_MC", "Ledger_MC_quick.cfg", "Ledger_MC_thorough.cfg", 8)],
+        scenarios=("Ledger_Trace", "bank,dispute"))
